@@ -143,6 +143,19 @@ def oracle(case, out):
     elif op == "arr":
         if d["back"] != a[4]:
             return "array comes back different"
+    elif op == "dyn":
+        # the unpacker of this packer is inline in the decompressors (szd_float.c: k bits per value, most significant first,
+        # continuing across bytes): decode the implementation's bytes that way
+        k = int(a[1], 16)
+        l = [] if a[2] == "_" else [int(x, 16) for x in a[2].split(",")]
+        b = [] if d.get("bytes", "_") in ("_", "") else [int(x, 16) for x in d["bytes"].split(",")]
+        if len(b) * 8 < k * len(l):
+            return "the packer returned %d bytes for %d values of %d bits (%d bits needed): the last value cannot be decoded" % (len(b), len(l), k, k * len(l))
+        bits = "".join("{:08b}".format(x) for x in b)
+        back = [int(bits[i * k:(i + 1) * k], 2) if k else 0 for i in range(len(l))]
+        if back != l:
+            j = [i for i in range(len(l)) if back[i] != l[i]][0]
+            return "value %d of %d (width %d) decodes to %x, was %x" % (j, len(l), k, back[j], l[j])
     elif op == "pack":
         if d["back"] != a[2]:
             return "unpack(pack(l)) differs from l"
